@@ -10,6 +10,7 @@
   algorithm computes a function of the concatenated bytes only.
 -/
 import Lomond.Proofs.Core
+import Lomond.Proofs.Segmentation
 
 namespace Lomond.C02
 open Lomond Lomond.Core
@@ -55,5 +56,45 @@ theorem segmentation_independent (cs₁ cs₂ : List Bytes) (s : Sys)
 theorem bytewise (data : Bytes) (s : Sys) :
     feedChunks (data.map (fun b => [b])) s = feedLoop data s := by
   rw [feedChunks_eq_flatten]; congr 1; induction data <;> simp_all
+
+
+/-! ### `WebSocket.feed`: handshake response included
+
+`wsFeed` is the model of `WebSocket.feed(data)`: the `if self.is_closed: return` guard, the
+header reader (`read_until(b'\\r\\n\\r\\n', max_bytes=16 KiB)` with its two `check_length`
+sites), the frames loop, `break` when the websocket gets closed, and the three `except` clauses
+(ProtocolError event, 1002 Close, forced disconnect).  `HdrInv` says that while the header block
+is awaited the parser's buffer holds no complete terminator and is within the limit; it holds
+initially and is preserved. -/
+
+/-- Feeding `a ++ b` in one read equals feeding `a`, then `b`, from every state: cuts inside the
+    HTTP response, between the response and the first frames (response and frames in one read),
+    inside a frame header, an extended length, a UTF-8 character, a compressed message. -/
+theorem wsFeed_two_reads (a b : Bytes) (s : Sys) (hi : HdrInv s) :
+    wsFeed (a ++ b) s =
+      match wsFeed a s with
+      | .ok _ s' => wsFeed b s'
+      | .err x s' => .err x s' :=
+  wsFeed_append a b s hi
+
+/-- **Segmentation independence of `WebSocket.feed`.**  From the state in which a connection
+    starts (or any later state), any two segmentations of the same server byte stream — valid or
+    invalid, any length — produce the same result: the same events with the same payloads, the
+    same application reactions, the same bytes written by the client, the same error. -/
+theorem ws_segmentation_independent (cs₁ cs₂ : List Bytes) (s : Sys) (hi : HdrInv s)
+    (h : cs₁.flatten = cs₂.flatten) : wsFeedChunks cs₁ s = wsFeedChunks cs₂ s := by
+  rw [wsFeedChunks_eq_flatten _ _ hi, wsFeedChunks_eq_flatten _ _ hi, h]
+
+/-- the invariant holds when a connection starts and after every read -/
+theorem hdr_invariant_initial (cfg : Cfg) (react : React) (env : List EnvStep) :
+    HdrInv { cfg := cfg, react := react, env := env } := hdrInv_init cfg react env
+
+theorem hdr_invariant_preserved (d : Bytes) (s s' : Sys) (hi : HdrInv s) (hr : wsFeed d s = .ok () s') :
+    HdrInv s' := wsFeed_hdrInv d s s' hi hr
+
+/-- non-vacuity: a handshake reply cut in the middle of the terminator, and cut after the
+    first frame byte, are two segmentations of one stream -/
+example : ([[72, 13, 10, 13], [10, 129, 1, 97]] : List Bytes).flatten = ([[72, 13, 10, 13, 10, 129], [1, 97]] : List Bytes).flatten := by
+  decide
 
 end Lomond.C02
